@@ -5,66 +5,276 @@ import Mathlib.Tactic.SplitIfs
 
 For any number of threads racing on the **same** object, every interleaving of the atomic steps,
 and (for the looping variants) arbitrary concurrent changes to the neighbouring bits of the byte:
-at most one thread returns `true`; a thread that returns `false` saw the transitioned state; once
-any thread has returned, exactly one thread has returned / will be the one returning `true`
-(the one whose CAS changed the field) and the field holds the transitioned value.
+at most one thread returns `true`; a thread that returns `false` saw the transitioned state; as soon
+as any thread has returned, the field holds the transitioned value and exactly one thread is the
+one that returns `true` (the one whose CAS changed the field).
 For the single-shot variant (pin) the same holds when nothing else in the byte changes; with a
-concurrent neighbour it can fail spuriously — that run is exhibited, it is outside C18's quantifier.
+concurrent neighbour it can fail spuriously — that run is exhibited; it is outside C18's quantifier
+(threads racing on the *same* object).
 -/
 namespace Mmtk.CasBit
 
-/-- Protocol well-formedness: the transition reaches the "done" state, and (single-shot) the fixed
-expected value is not yet done. -/
+/-- Protocol well-formedness: the transition reaches the "done" state, and the fixed expected value
+of the single-shot variant is not yet done. -/
 structure Proto.WF (P : Proto) : Prop where
   next_done : ∀ v, P.isDone v = false → P.isDone (P.next v) = true
   old0_not_done : P.isDone P.old0 = false
 
-/-- shared-memory facts -/
+/-- shared-memory facts (`f0` is the initial field value) -/
 structure G (P : Proto) (f0 : Nat) (sh : Shared) : Prop where
   unchanged : sh.winner = none → sh.field = f0
-  changed : sh.winner ≠ none → P.isDone sh.field = true ∧ P.isDone f0 = false
+  changed : sh.winner ≠ none → P.isDone sh.field = true ∧ P.isDone f0 = false ∧ sh.field = P.next f0
 
-/-- per-thread knowledge -/
-def L (P : Proto) (sh : Shared) (t : Nat) : PC → Prop
-  | .l1 => P.single = false
-  | .l2 old => P.isDone old = false ∧ (P.single = true → old = P.old0)
-  | .l3 old _ => P.isDone old = false ∧ (P.single = true → old = P.old0)
+/-- what thread `t` at program point `p` knows -/
+def L (P : Proto) (f0 : Nat) (sh : Shared) (t : Nat) : PC → Prop
+  | .l1 => P.single = false ∧ sh.winner ≠ some t
+  | .l2 old => P.isDone old = false ∧ (P.single = true → old = P.old0) ∧ sh.winner ≠ some t
+  | .l3 old o => P.isDone old = false ∧ (P.single = true → old = P.old0) ∧ sh.winner ≠ some t ∧
+      (sh.envMoved = false → o = sh.other)
   | .ret true => sh.winner = some t
-  | .ret false => sh.winner ≠ some t ∧ (P.single = false → P.isDone sh.field = true)
+  | .ret false => sh.winner ≠ some t ∧ (P.single = false → P.isDone sh.field = true) ∧
+      (P.single = true → sh.envMoved = false → f0 = P.old0 → sh.winner ≠ none)
 
 structure Inv (P : Proto) (f0 : Nat) (s : State) : Prop where
   g : G P f0 s.sh
-  l : ∀ x, L P s.sh x (s.pc x)
+  l : ∀ x, L P f0 s.sh x (s.pc x)
 
 theorem init_inv (P : Proto) (hP : P.WF) (f0 o0 : Nat) : Inv P f0 (init P f0 o0) := by
   refine ⟨⟨fun _ => rfl, fun h => absurd rfl h⟩, fun x => ?_⟩
   simp only [init, Proto.entry]
   split_ifs with hs
-  · exact ⟨hP.old0_not_done, fun _ => rfl⟩
-  · simpa using hs
+  · exact ⟨hP.old0_not_done, fun _ => rfl, by simp⟩
+  · exact ⟨by simpa using hs, by simp⟩
+
+theorem cas_needs_fresh (P : Proto) (f0 : Nat) (sh : Shared) (old : Nat) (hg : G P f0 sh)
+    (h1 : P.isDone old = false) (hf : sh.field = old) : sh.winner = none ∧ old = f0 := by
+  have hwn : sh.winner = none := by
+    cases hw : sh.winner with
+    | none => rfl
+    | some w =>
+      have := (hg.changed (by rw [hw]; simp)).1
+      rw [hf, h1] at this; cases this
+  exact ⟨hwn, by rw [← hf]; exact hg.unchanged hwn⟩
 
 theorem local_ok (P : Proto) (hP : P.WF) (f0 t : Nat) (sh : Shared) (p : PC)
-    (hg : G P f0 sh) (hl : L P sh t p) :
-    G P f0 (localStep P t sh p).1 ∧ L P (localStep P t sh p).1 t (localStep P t sh p).2 := by
-  obtain ⟨g1, g2⟩ := hg
+    (hg : G P f0 sh) (hl : L P f0 sh t p) :
+    G P f0 (localStep P t sh p).1 ∧ L P f0 (localStep P t sh p).1 t (localStep P t sh p).2 := by
   cases p with
   | l1 =>
+    obtain ⟨hs, hw⟩ : P.single = false ∧ sh.winner ≠ some t := hl
     simp only [localStep]
     split_ifs with hd
-    · refine ⟨⟨g1, g2⟩, ?_, fun _ => hd⟩
-      intro hw
-      -- a thread at the loop head has not won (it would be at `ret true`)
-      sorry
-    · exact ⟨⟨g1, g2⟩, by simpa using hd, fun hs => by rw [hl] at hs; cases hs⟩
-  | l2 old => exact ⟨⟨g1, g2⟩, hl⟩
+    · refine ⟨hg, ?_⟩
+      show sh.winner ≠ some t ∧ (P.single = false → P.isDone sh.field = true) ∧
+        (P.single = true → sh.envMoved = false → f0 = P.old0 → sh.winner ≠ none)
+      exact ⟨hw, fun _ => hd, (fun h => by rw [hs] at h; cases h)⟩
+    · refine ⟨hg, ?_⟩
+      show P.isDone sh.field = false ∧ (P.single = true → sh.field = P.old0) ∧ sh.winner ≠ some t
+      exact ⟨by simpa using hd, (fun h => by rw [hs] at h; cases h), hw⟩
+  | l2 old =>
+    obtain ⟨h1, h2, h3⟩ : P.isDone old = false ∧ (P.single = true → old = P.old0) ∧ sh.winner ≠ some t := hl
+    refine ⟨hg, ?_⟩
+    show P.isDone old = false ∧ (P.single = true → old = P.old0) ∧ sh.winner ≠ some t ∧
+      (sh.envMoved = false → sh.other = sh.other)
+    exact ⟨h1, h2, h3, fun _ => rfl⟩
   | l3 old o =>
+    obtain ⟨h1, h2, h3, h4⟩ : P.isDone old = false ∧ (P.single = true → old = P.old0) ∧ sh.winner ≠ some t ∧
+      (sh.envMoved = false → o = sh.other) := hl
     simp only [localStep]
-    split_ifs with hc hs hs
+    split_ifs with hc hs
     · obtain ⟨hf, _⟩ := hc
-      refine ⟨⟨fun h => by cases h, fun _ => ⟨hP.next_done old hl.1, ?_⟩⟩, rfl⟩
-      sorry
-    · sorry
-    · sorry
-  | ret b => exact ⟨⟨g1, g2⟩, hl⟩
+      obtain ⟨_, hf0⟩ := cas_needs_fresh P f0 sh old hg h1 hf
+      refine ⟨⟨(fun h => by cases h), fun _ => ⟨hP.next_done old h1, by rw [← hf0]; exact h1, by rw [hf0]⟩⟩, ?_⟩
+      show (some t : Option Nat) = some t
+      rfl
+    · refine ⟨hg, ?_⟩
+      show sh.winner ≠ some t ∧ (P.single = false → P.isDone sh.field = true) ∧
+        (P.single = true → sh.envMoved = false → f0 = P.old0 → sh.winner ≠ none)
+      refine ⟨h3, (fun h => by rw [hs] at h; cases h), ?_⟩
+      intro _ hem hf0 hwn
+      apply hc
+      refine ⟨?_, (h4 hem).symm⟩
+      rw [hg.unchanged hwn, hf0, h2 hs]
+    · refine ⟨hg, ?_⟩
+      show P.single = false ∧ sh.winner ≠ some t
+      exact ⟨by simpa using hs, h3⟩
+  | ret b => exact ⟨hg, hl⟩
+
+theorem stable (P : Proto) (hP : P.WF) (f0 t x : Nat) (hxt : x ≠ t) (sh : Shared) (p q : PC)
+    (hg : G P f0 sh) (hl : L P f0 sh t p) (hq : L P f0 sh x q) :
+    L P f0 (localStep P t sh p).1 x q := by
+  cases p with
+  | l1 => simp only [localStep]; split_ifs <;> exact hq
+  | l2 old => exact hq
+  | ret b => exact hq
+  | l3 old o =>
+    have h1 : P.isDone old = false := hl.1
+    simp only [localStep]
+    split_ifs with hc
+    · obtain ⟨hf, _⟩ := hc
+      obtain ⟨hwn, _⟩ := cas_needs_fresh P f0 sh old hg h1 hf
+      have hne : (some t : Option Nat) ≠ some x := by
+        intro e; injection e with e; exact hxt e.symm
+      cases q with
+      | l1 => exact ⟨hq.1, hne⟩
+      | l2 o2 => exact ⟨hq.1, hq.2.1, hne⟩
+      | l3 o2 oo => exact ⟨hq.1, hq.2.1, hne, hq.2.2.2⟩
+      | ret b =>
+        cases b with
+        | true => have : sh.winner = some x := hq; rw [hwn] at this; cases this
+        | false =>
+          obtain ⟨_, q2, _⟩ : sh.winner ≠ some x ∧ (P.single = false → P.isDone sh.field = true) ∧
+            (P.single = true → sh.envMoved = false → f0 = P.old0 → sh.winner ≠ none) := hq
+          show (some t : Option Nat) ≠ some x ∧ (P.single = false → P.isDone (P.next old) = true) ∧
+            (P.single = true → sh.envMoved = false → f0 = P.old0 → (some t : Option Nat) ≠ none)
+          exact ⟨hne, fun _ => hP.next_done old h1, fun _ _ _ => by simp⟩
+    · exact hq
+    · exact hq
+
+theorem step_inv (P : Proto) (hP : P.WF) (f0 : Nat) (s : State) (a : Act) (h : Inv P f0 s) :
+    Inv P f0 (step P s a) := by
+  obtain ⟨hg, hl⟩ := h
+  cases a with
+  | thread t =>
+    have loc := local_ok P hP f0 t s.sh (s.pc t) hg (hl t)
+    refine ⟨loc.1, fun x => ?_⟩
+    simp only [step]
+    by_cases hx : x = t
+    · simp only [hx, if_true]; exact loc.2
+    · simp only [hx, if_false]
+      exact stable P hP f0 t x hx s.sh (s.pc t) (s.pc x) hg (hl t) (hl x)
+  | env v =>
+    refine ⟨⟨hg.unchanged, hg.changed⟩, fun x => ?_⟩
+    have := hl x
+    simp only [step]
+    cases hp : s.pc x with
+    | l1 => rw [hp] at this; exact this
+    | l2 o => rw [hp] at this; exact this
+    | l3 o oo =>
+      rw [hp] at this
+      exact ⟨this.1, this.2.1, this.2.2.1, fun h => by cases h⟩
+    | ret b =>
+      rw [hp] at this
+      cases b with
+      | true => exact this
+      | false => exact ⟨this.1, this.2.1, fun _ h => by cases h⟩
+
+theorem exec_inv (P : Proto) (hP : P.WF) (f0 : Nat) (s : State) (run : List Act) (h : Inv P f0 s) :
+    Inv P f0 (exec P s run) := by
+  induction run generalizing s with
+  | nil => exact h
+  | cons a rest ih => exact ih _ (step_inv P hP f0 s a h)
+
+def Reachable (P : Proto) (f0 o0 : Nat) (s : State) : Prop := ∃ run, s = exec P (init P f0 o0) run
+
+theorem reachable_inv {P : Proto} (hP : P.WF) {f0 o0 : Nat} {s : State} (h : Reachable P f0 o0 s) :
+    Inv P f0 s := by
+  obtain ⟨run, rfl⟩ := h
+  exact exec_inv P hP f0 _ run (init_inv P hP f0 o0)
+
+/-! ## The property theorems — all thread counts, all interleavings, arbitrary neighbour changes -/
+
+/-- **C18 (1)** at most one thread observes the transition as its own. -/
+theorem at_most_one_true {P : Proto} (hP : P.WF) {f0 o0 : Nat} {s : State} (h : Reachable P f0 o0 s)
+    (x y : Nat) (hx : s.pc x = .ret true) (hy : s.pc y = .ret true) : x = y := by
+  have inv := reachable_inv hP h
+  have lx := inv.l x; have ly := inv.l y
+  rw [hx] at lx; rw [hy] at ly
+  have : (some x : Option Nat) = some y := by
+    have e1 : s.sh.winner = some x := lx
+    have e2 : s.sh.winner = some y := ly
+    rw [← e1, ← e2]
+  injection this
+
+/-- **C18 (2)** (looping variants: mark bit, mark byte, LOS mark, log bit — with or without
+concurrent changes to the neighbouring bits) a thread that returns `false` saw the transitioned
+state, the state is the transitioned one from then on, and if the object was not yet in that state
+when the race began then exactly one thread is the winner. -/
+theorem false_means_done {P : Proto} (hP : P.WF) (hl : P.single = false) {f0 o0 : Nat} {s : State}
+    (h : Reachable P f0 o0 s) (x : Nat) (hx : s.pc x = .ret false) :
+    P.isDone s.sh.field = true ∧ (P.isDone f0 = false → ∃ w, s.sh.winner = some w ∧ w ≠ x) := by
+  have inv := reachable_inv hP h
+  have lx := inv.l x
+  rw [hx] at lx
+  obtain ⟨hw, hd, _⟩ : s.sh.winner ≠ some x ∧ (P.single = false → P.isDone s.sh.field = true) ∧
+    (P.single = true → s.sh.envMoved = false → f0 = P.old0 → s.sh.winner ≠ none) := lx
+  refine ⟨hd hl, fun hnd => ?_⟩
+  cases hwin : s.sh.winner with
+  | none =>
+    have := inv.g.unchanged hwin
+    have hdd := hd hl
+    rw [this, hnd] at hdd; cases hdd
+  | some w => exact ⟨w, rfl, fun e => hw (by rw [hwin, e])⟩
+
+/-- **C18 (3)** the winner's transition is the transition: once a thread has returned `true` the
+field holds `next f0` (marked / logged / pinned), and it was not in that state before. -/
+theorem true_means_transition {P : Proto} (hP : P.WF) {f0 o0 : Nat} {s : State}
+    (h : Reachable P f0 o0 s) (x : Nat) (hx : s.pc x = .ret true) :
+    s.sh.field = P.next f0 ∧ P.isDone s.sh.field = true ∧ P.isDone f0 = false := by
+  have inv := reachable_inv hP h
+  have lx := inv.l x
+  rw [hx] at lx
+  have hw : s.sh.winner = some x := lx
+  have := inv.g.changed (by rw [hw]; simp)
+  exact ⟨this.2.2, this.1, this.2.1⟩
+
+/-- **C18 (4)** the winner, once it has finished its CAS, is at `ret true` (so "exactly one thread
+returns true" as soon as anybody returned `false`): the ghost winner is a thread that returned true. -/
+theorem winner_returns_true {P : Proto} (hP : P.WF) {f0 o0 : Nat} {s : State}
+    (h : Reachable P f0 o0 s) (w : Nat) (hw : s.sh.winner = some w) : s.pc w = .ret true := by
+  have inv := reachable_inv hP h
+  have lw := inv.l w
+  cases hp : s.pc w with
+  | l1 => rw [hp] at lw; exact absurd hw lw.2
+  | l2 o => rw [hp] at lw; exact absurd hw lw.2.2
+  | l3 o oo => rw [hp] at lw; exact absurd hw lw.2.2.1
+  | ret b =>
+    cases b with
+    | true => rfl
+    | false => rw [hp] at lw; exact absurd hw lw.1
+
+/-- **C18 (5)** single-shot pin/unpin with nothing else in the byte changing: a thread that returns
+`false` lost to another thread that returns `true`. -/
+theorem single_shot_false_has_winner {P : Proto} (hP : P.WF) (hs : P.single = true) {o0 : Nat} {s : State}
+    (h : Reachable P P.old0 o0 s) (hq : s.sh.envMoved = false) (x : Nat) (hx : s.pc x = .ret false) :
+    ∃ w, w ≠ x ∧ s.pc w = .ret true := by
+  have inv := reachable_inv hP h
+  have lx := inv.l x
+  rw [hx] at lx
+  obtain ⟨hw, _, h3⟩ : s.sh.winner ≠ some x ∧ (P.single = false → P.isDone s.sh.field = true) ∧
+    (P.single = true → s.sh.envMoved = false → P.old0 = P.old0 → s.sh.winner ≠ none) := lx
+  have := h3 hs hq rfl
+  cases hwin : s.sh.winner with
+  | none => exact absurd hwin this
+  | some w => exact ⟨w, fun e => hw (by rw [hwin, e]), winner_returns_true hP h w hwin⟩
+
+/-! ## the protocols of the code are well-formed instances -/
+
+theorem markProto_wf (st : Nat) (hst : st ≠ 0) : (markProto st).WF :=
+  ⟨fun _ _ => by simp [markProto], by simp [markProto]; exact fun e => hst e.symm⟩
+theorem logProto_wf : logProto.WF := ⟨fun _ _ => by simp [logProto], by simp [logProto]⟩
+theorem pinProto_wf : pinProto.WF := ⟨fun _ _ => by simp [pinProto], by simp [pinProto]⟩
+theorem losProto_wf : (losProto 1).WF :=
+  ⟨fun v _ => by simp [losProto]; omega, by simp [losProto]⟩
+
+/-! ## outside C18's quantifier: a neighbour's bit makes the single-shot pin fail spuriously -/
+
+/-- One thread pins; between its load and its CAS another object's bit in the same byte changes:
+`pin_object` returns false although nobody pinned the object. -/
+theorem pin_can_fail_spuriously_with_neighbours :
+    let s := exec pinProto (init pinProto 0 0) [.thread 0, .env 4, .thread 0]
+    s.pc 0 = .ret false ∧ s.sh.field = 0 ∧ s.sh.winner = none := by
+  decide
+
+/-! ## non-vacuity -/
+
+/-- mark bit, three threads, a neighbour's bit flips in the middle (both racers' first CAS fail
+because of it and they retry): thread 0 wins, thread 1 returns false, thread 2 is still racing. -/
+example :
+    let s := exec (markProto 1) (init (markProto 1) 0 0)
+      [.thread 0, .thread 1, .thread 0, .thread 1, .env 8, .thread 0, .thread 1, .thread 1, .thread 2, .thread 0,
+       .thread 0, .thread 0, .thread 1, .thread 1, .thread 1]
+    s.pc 0 = .ret true ∧ s.pc 1 = .ret false ∧ s.pc 2 = .l2 0 ∧ s.sh.field = 1 ∧ s.sh.winner = some 0 := by
+  decide
 
 end Mmtk.CasBit
